@@ -113,6 +113,11 @@ def generate(rng, tier, index):
     pressure = 0.25
     shapers = [_gen_shaper(rng, triples, rng.choice(sources), pressure, bnodes, tp) for _ in range(n_sh)]
     share = {}
+    if n_sh >= 2 and rng.random() < 0.15:
+        # every Shaper prints its figures with its own number of decimals
+        for k, sp in enumerate(shapers):
+            sp["options"]["decimals"] = [1, 3, 2][k % 3]
+            sp["options"]["instances_report_mode"] = "mixed"
     if n_sh >= 2:
         if rng.random() < 0.6:
             share["namespaces_dict"] = True
